@@ -58,6 +58,7 @@ type Waiter struct {
 	Label   string // function that created it
 	Period  Duration
 	Created Time
+	lastDue Time // tickers: the due time that was last honoured by FireDue
 	C       chan Time
 	stopped bool
 	fired   bool
@@ -227,6 +228,40 @@ func Find(kind, sub string) []*Waiter {
 
 // Fire delivers the waiter's event now. For a ticker a tick is dropped when the one-slot channel is
 // still full (real ticker semantics); returns whether something was delivered.
+// FireDue fires every live ticker and timer whose label contains sub and whose due time has been reached by
+// the virtual clock (timer: creation + period; ticker: every full period since creation, at most one tick per
+// call - a real ticker drops ticks nobody collected). It returns the number of waiters fired. Harnesses that
+// let the clock advance in small steps use it so that WHEN a tick happens is decided by the code under test
+// (which timer it created, when, and whether it re-armed it), not by the harness.
+func FireDue(sub string) int {
+	n := 0
+	for _, w := range Waiters() {
+		if w.Kind == "sleep" || !strings.Contains(w.Label, sub) {
+			continue
+		}
+		mu.Lock()
+		due := false
+		switch w.Kind {
+		case "timer":
+			due = !now.Before(w.Created.Add(w.Period))
+		case "ticker":
+			base := w.lastDue
+			if base.IsZero() {
+				base = w.Created
+			}
+			if k := now.Sub(base) / w.Period; k >= 1 {
+				due = true
+				w.lastDue = base.Add(k * w.Period)
+			}
+		}
+		mu.Unlock()
+		if due && w.Fire() {
+			n++
+		}
+	}
+	return n
+}
+
 func (w *Waiter) Fire() bool {
 	mu.Lock()
 	activity++
